@@ -398,10 +398,11 @@ EDIT_KINDS = [
 class EditGen:
     """random edits that are (believed) valid for the current definitions held in a ModelGen"""
 
-    def __init__(self, g, rnd=None):
+    def __init__(self, g, rnd=None, allow_del_base=False):
         self.g = g
         self.rnd = rnd or g.rnd
         self.fresh = 0
+        self.allow_del_base = allow_del_base      # may a space named as `base` by a space formula be deleted
 
     def static_spaces(self):
         return [s for s in self.g.rm.walk()
@@ -644,7 +645,8 @@ class EditGen:
                     t = r.value if r.kind == "space" else r.value[0]
                     if t.is_within(sp):
                         return True
-            if s.formula is not None and s.formula.base is not None and s.formula.base.is_within(sp):
+            if (not self.allow_del_base and s.formula is not None and s.formula.base is not None
+                    and s.formula.base.is_within(sp)):
                 return True
         return False
 
